@@ -34,7 +34,10 @@ var kfs = []kf{
 	{"KF-C20-code-combined", "C20.E1 C20.E2 C20.E3 C20.E4 C20.E5",
 		"a code-font run that is also bold/italic/strike gets its emphasis delimiters inside the code span ('`**x**`'): they become literal text",
 		hasCodeCombined},
-	{"KF-C20-list-no-blank", "C20.E1 C20.E2 C20.E3 C20.E4 C20.E5",
+	{"KF-C20-nested-flanking", "C20.E1 C20.E2 C20.E3 C20.E4 C20.E5",
+		"a strike run that is also bold/italic is written '~~**x**~~'; next to a letter or digit of the neighbouring run the outer '~~' is not a delimiter run by the flanking rule and stays literal",
+		hasNestedFlanking},
+	{"KF-C20-list-no-blank", "C20.E1 C20.E2 C20.E4 C20.E5",
 		"a list item is not followed by a blank line: a following paragraph, table or setext heading is swallowed as a lazy continuation of the item",
 		hasListLazy},
 	{"KF-C20-simple-table", "C20.E1 C20.E2 C20.E3 C20.E4 C20.E5",
@@ -58,6 +61,16 @@ var kfs = []kf{
 	{"KF-C20-nested-emphasis", "C20.E5",
 		"round trip keeps only the outermost of nested emphasis ('***x***', '~~**x**~~'): the second export has fewer delimiters",
 		hasMultiEmphasis},
+	{"KF-C20-heading-deep", "C20.E5",
+		"Heading7-9 are exported at level 6 and come back as Heading6, whose run formatting differs: the second export gains or loses emphasis delimiters",
+		func(c Case) bool {
+			for _, b := range c.Blocks {
+				if b.K == "h" && b.Level > 6 && !blank(b.T) {
+					return true
+				}
+			}
+			return false
+		}},
 	{"KF-C20-wrap-formatted", "C20.E4 C20.E5",
 		"WrapLongLines breaks lines inside a formatted run; on re-import the soft break inside emphasis/code is dropped and the words are glued",
 		hasWrappedFormatted},
@@ -256,6 +269,32 @@ func hasIntrawordUnderscore(c Case) bool {
 	return false
 }
 
+func hasNestedFlanking(c Case) bool {
+	for _, b := range c.Blocks {
+		if b.K != "p" {
+			continue
+		}
+		rs := nonEmptyRuns(b)
+		for i, r := range rs {
+			if !(r.S && (r.B || r.I)) {
+				continue
+			}
+			if i > 0 {
+				p := []rune(rs[i-1].T)
+				if wordChar(p[len(p)-1]) {
+					return true
+				}
+			}
+			if i+1 < len(rs) {
+				if wordChar([]rune(rs[i+1].T)[0]) {
+					return true
+				}
+			}
+		}
+	}
+	return false
+}
+
 func hasCodeCombined(c Case) bool {
 	for _, b := range c.Blocks {
 		if b.K != "p" {
@@ -270,50 +309,60 @@ func hasCodeCombined(c Case) bool {
 	return false
 }
 
-// a visible list item directly followed by a block that cannot interrupt a paragraph
+// a visible list item is directly followed in the output by a block that cannot interrupt a paragraph
+// (normal paragraph, table, setext heading). "Directly followed" is evaluated for the body order and for
+// the paragraphs-then-tables order of the open order finding.
 func hasListLazy(c Case) bool {
-	for i := 0; i+1 < len(c.Blocks); i++ {
-		if c.Blocks[i].K != "li" || blank(c.Blocks[i].T) {
+	lazy := func(n Block, withTable bool) bool {
+		switch n.K {
+		case "p":
+			return true
+		case "table":
+			return withTable
+		case "h":
+			return c.O.Setext && n.Level <= 2
+		}
+		return false
+	}
+	for i, it := range c.Blocks {
+		if it.K != "li" || blank(it.T) {
 			continue
 		}
-		// with the paragraphs-then-tables traversal the block written next is the next non-table block,
-		// or the first table when the item is the last text block: consider every later block until one
-		// that is certainly written right after the item has been looked at
+		var next, nextText *Block
 		for j := i + 1; j < len(c.Blocks); j++ {
 			n := c.Blocks[j]
-			switch n.K {
-			case "p":
-				if !blank(n.paraText()) {
-					return true
+			if !visible(n) {
+				if n.K == "empty" || n.K == "p" {
+					break // an empty paragraph is written as a blank line: the item ends there
 				}
-			case "table":
-				return true
-			case "h":
-				if !blank(n.T) && c.O.Setext && n.Level <= 2 {
-					return true
-				}
+				continue // blank heading / quote / code / list item: nothing is written
 			}
-			if n.K == "table" || (n.K != "empty" && blank(n.text())) {
-				continue // not written at all (blank heading/quote/code/list item): look further
+			if next == nil {
+				next = &c.Blocks[j]
 			}
-			if n.K == "table" {
-				continue
-			}
-			break
-		}
-		// tables are written after all paragraphs: the last text block being a list item meets the first table
-		lastText := true
-		for j := i + 1; j < len(c.Blocks); j++ {
-			if c.Blocks[j].K != "table" {
-				lastText = false
+			if n.K != "table" {
+				nextText = &c.Blocks[j]
+				break
 			}
 		}
-		if lastText && hasKind(c, "table") {
+		if next != nil && lazy(*next, true) {
 			return true
 		}
-	}
-	if n := len(c.Blocks); n > 0 && c.Blocks[n-1].K == "li" && !blank(c.Blocks[n-1].T) && hasKind(c, "table") {
-		return true
+		if nextText != nil && lazy(*nextText, false) {
+			return true
+		}
+		if nextText == nil && hasKind(c, "table") {
+			// is the item the last text block written? then the first table follows it
+			last := true
+			for j := i + 1; j < len(c.Blocks); j++ {
+				if c.Blocks[j].K != "table" && (visible(c.Blocks[j]) || c.Blocks[j].K == "empty" || c.Blocks[j].K == "p") {
+					last = false
+				}
+			}
+			if last {
+				return true
+			}
+		}
 	}
 	return false
 }
@@ -357,7 +406,8 @@ func hasMultiEmphasis(c Case) bool {
 	return false
 }
 
-// wrapping is on, a paragraph is longer than the limit and has a formatted run with an inner blank
+// wrapping is on and a paragraph with a formatted run that has an inner blank is longer than the limit
+// (text plus the delimiters Markdown needs for its formatted runs, counted in bytes as an upper bound)
 func hasWrappedFormatted(c Case) bool {
 	if !c.O.Wrap {
 		return false
@@ -367,12 +417,29 @@ func hasWrappedFormatted(c Case) bool {
 			continue
 		}
 		multi := false
+		n := 0
 		for _, r := range b.Runs {
-			if r.mask() != 0 && len(strings.Fields(r.T)) >= 2 {
+			n += len(r.T)
+			if r.mask() == 0 || r.T == "" {
+				continue
+			}
+			if len(strings.Fields(r.T)) >= 2 {
 				multi = true
 			}
+			if r.B {
+				n += 4
+			}
+			if r.I {
+				n += 2
+			}
+			if r.S {
+				n += 4
+			}
+			if r.C {
+				n += 2
+			}
 		}
-		if multi && len(b.paraText()) > c.O.MaxLen-40 { // delimiters count towards the length
+		if multi && n > c.O.MaxLen {
 			return true
 		}
 	}
